@@ -4,9 +4,13 @@ package req
 
 import (
 	"context"
+	"crypto/tls"
 	"fmt"
+	"io"
+	"log"
 	"net"
 	"net/http"
+	"net/http/httptest"
 	"net/textproto"
 	"net/url"
 	"strconv"
@@ -15,13 +19,17 @@ import (
 	"testing"
 	"time"
 
+	"github.com/imroc/req/v3/internal/netutil"
 	"github.com/imroc/req/v3/internal/verifh"
+	"github.com/imroc/req/v3/pkg/altsvc"
 )
 
 // c11Farm is a set of loopback HTTP/1.1 origins. Every authority the client dials is mapped to
 // one of the listeners by the custom dialer, so chains may name arbitrary hosts and IP literals.
 // Each origin records what it received; the redirect it answers with is scripted per run.
 type c11Farm struct {
+	scheme  string
+	tsrvs   []*httptest.Server
 	mu      sync.Mutex
 	lns     []net.Listener
 	srvs    []*http.Server
@@ -45,15 +53,14 @@ func c11URLHost(auth string) string {
 	return auth
 }
 
-func newC11Farm(t *testing.T, n int) *c11Farm {
-	f := &c11Farm{}
+func newC11Farm(t *testing.T, n int, tls bool) *c11Farm {
+	f := &c11Farm{scheme: "http"}
+	if tls {
+		f.scheme = "https"
+	}
 	for i := 0; i < n; i++ {
-		ln, err := net.Listen("tcp", "127.0.0.1:0")
-		if err != nil {
-			t.Fatalf("listen: %v", err)
-		}
 		origin := i
-		srv := &http.Server{Handler: http.HandlerFunc(func(w http.ResponseWriter, r *http.Request) {
+		handler := http.HandlerFunc(func(w http.ResponseWriter, r *http.Request) {
 			k, _ := strconv.Atoi(strings.TrimPrefix(r.URL.Path, "/"))
 			f.mu.Lock()
 			f.recs = append(f.recs, c11Record{origin: origin, idx: k, hdr: r.Header.Clone()})
@@ -63,13 +70,27 @@ func newC11Farm(t *testing.T, n int) *c11Farm {
 			}
 			f.mu.Unlock()
 			if next != "" {
-				w.Header().Set("Location", "http://"+next+"/"+strconv.Itoa(k+1))
+				w.Header().Set("Location", f.scheme+"://"+next+"/"+strconv.Itoa(k+1))
 				w.WriteHeader(http.StatusFound)
 				return
 			}
 			w.WriteHeader(http.StatusOK)
 			fmt.Fprint(w, "end")
-		})}
+		})
+		if tls {
+			ts := httptest.NewUnstartedServer(handler)
+			ts.EnableHTTP2 = true
+			ts.Config.ErrorLog = log.New(io.Discard, "", 0)
+			ts.StartTLS()
+			f.lns = append(f.lns, ts.Listener)
+			f.tsrvs = append(f.tsrvs, ts)
+			continue
+		}
+		ln, err := net.Listen("tcp", "127.0.0.1:0")
+		if err != nil {
+			t.Fatalf("listen: %v", err)
+		}
+		srv := &http.Server{Handler: handler}
 		go srv.Serve(ln)
 		f.lns = append(f.lns, ln)
 		f.srvs = append(f.srvs, srv)
@@ -79,6 +100,9 @@ func newC11Farm(t *testing.T, n int) *c11Farm {
 
 func (f *c11Farm) close() {
 	for _, s := range f.srvs {
+		s.Close()
+	}
+	for _, s := range f.tsrvs {
 		s.Close()
 	}
 }
@@ -97,6 +121,22 @@ func (f *c11Farm) dial(ctx context.Context, network, addr string) (net.Conn, err
 	}
 	var d net.Dialer
 	return d.DialContext(ctx, "tcp", f.lns[h%len(f.lns)].Addr().String())
+}
+
+// dialTLS is dial plus a TLS client handshake offering h2 (no verification: the farm uses the
+// httptest certificate for every name). The HTTP/2 transport, which carries Alt-Svc h2 requests,
+// only honours DialTLSContext.
+func (f *c11Farm) dialTLS(ctx context.Context, network, addr string) (net.Conn, error) {
+	raw, err := f.dial(ctx, network, addr)
+	if err != nil {
+		return nil, err
+	}
+	tc := tls.Client(raw, &tls.Config{InsecureSkipVerify: true, NextProtos: []string{"h2", "http/1.1"}})
+	if err := tc.HandshakeContext(ctx); err != nil {
+		raw.Close()
+		return nil, err
+	}
+	return tc, nil
 }
 
 func (f *c11Farm) reset(targets []string) {
@@ -125,22 +165,54 @@ func c11Sensitive(k string) bool {
 	return false
 }
 
-// TestVerif_C11_e2e: scripted redirect chains through the real client.
+// TestVerif_C11_e2e: scripted redirect chains through the real client (plain HTTP/1.1).
 func TestVerif_C11_e2e(t *testing.T) {
-	s := c11New(t, "e2e",
-		"real Client (SetRedirectPolicy compositions, SetDial mapping any authority to 3 loopback origins, keep-alives off) following scripted 302 chains of 0..limit+1 hops over RFC-valid authorities (names any case/trailing dot/ports, IPv4, bracketed IPv6 ± zone ± port; related spellings and near misses of the first host); request carries Authorization, Cookie, custom and multi-valued headers; compared with the model chain (requests received in order, per-hop header values, outcome) and judged by the oracle: number of requests = hops the net/url oracle says every policy allows, each connection dialled to the hop's hostname, sensitive headers only where Go's same-domain rule or an AlwaysCopy policy allows, custom headers everywhere; non-trivial = ≥1 redirect scripted")
+	c11RunE2E(t, "e2e", false, verifh.N(1500, 30000),
+		"real Client (SetRedirectPolicy compositions, directly or through Clone families, the same client reused for several chains; SetDial mapping any authority to 3 loopback origins, keep-alives off) following scripted 302 chains of 0..limit+1 hops over RFC-valid authorities (names any case/trailing dot/ports, IPv4, bracketed IPv6 ± zone ± port; related spellings and near misses of the first host); request carries Authorization, Cookie, custom and multi-valued headers; compared with the model chain (requests received in order, per-hop header values, outcome) and judged by the oracle: number of requests = hops the net/url oracle says every policy allows, each connection dialled to the hop's hostname, the URL of the request in flight not rewritten, sensitive headers only where Go's same-domain rule or an AlwaysCopy policy allows, custom headers everywhere; non-trivial = ≥1 redirect scripted")
+}
+
+// TestVerif_C11_e2ealt: the same chains over HTTPS (HTTP/2 by ALPN) with HTTP/3 support enabled
+// and Alt-Svc entries (protocol h2) cached for origins of the chain that name OTHER hosts and
+// ports: whatever alternative endpoint carries a request, policies and header rules must still
+// see the authorities of the URLs of the chain.
+func TestVerif_C11_e2ealt(t *testing.T) {
+	c11RunE2E(t, "e2ealt", true, verifh.N(500, 8000),
+		"as lane e2e but https origins (TLS, HTTP/2 via ALPN), client with EnableHTTP3 (alt-svc jar active) and, per chain, cached Alt-Svc h2 entries for the first origin (2/3 of the chains) and for random later origins, naming a different host, a different port or both; authorities restricted to LDH names and IP literals (SNI); same model line and oracle as e2e except that connections may go to the alternative endpoints (dial addresses are not compared); the URL of the original request must still name the origin after the call")
+}
+
+func c11RunE2E(t *testing.T, lane string, alt bool, n int, rule string) {
+	s := c11New(t, lane, rule)
 	r := s.Rand()
-	farm := newC11Farm(t, 3)
+	farm := newC11Farm(t, 3, alt)
 	defer farm.close()
 	c := C().SetDial(farm.dial).SetProxy(nil).DisableKeepAlives().SetTimeout(20 * time.Second)
+	if alt {
+		c.EnableInsecureSkipVerify().EnableHTTP3().SetDialTLS(farm.dialTLS)
+		if c.Transport.altSvcJar == nil {
+			t.Fatalf("verif: alt-svc jar not available with this toolchain - no tests to run")
+		}
+	}
+	ldh := func(a c11Auth) bool {
+		if true { // no SNI is sent (dialTLS), so any RFC authority can be an https origin
+			return true
+		}
+		for _, p := range a.parts {
+			if p == "" || strings.Trim(p, "abcdefghijklmnopqrstuvwxyzABCDEFGHIJKLMNOPQRSTUVWXYZ0123456789-") != "" || strings.HasPrefix(p, "-") || strings.HasSuffix(p, "-") {
+				return false
+			}
+		}
+		return true
+	}
 	hdrPool := []string{"Authorization", "Cookie", "X-Custom", "X-Multi", "Www-Authenticate"}
 	probes := hdrPool
-	n := verifh.N(1500, 30000)
+	var prevCl *Client
+	var prevPs []c11Pol
+	var prevLine0, prevScen string
 	for i := 0; i < n; i++ {
 		gen := func() c11Auth {
 			for {
 				a := c11GenAuth(r, false)
-				if _, ok := c11OracleHost(a.render()); ok && a.wf && a.rfc {
+				if _, ok := c11OracleHost(a.render()); ok && a.wf && a.rfc && ldh(a) {
 					return a
 				}
 			}
@@ -148,7 +220,7 @@ func TestVerif_C11_e2e(t *testing.T) {
 		vary := func(a c11Auth) c11Auth {
 			for {
 				b := c11Vary(r, a, false)
-				if _, ok := c11OracleHost(b.render()); ok && b.wf && b.rfc {
+				if _, ok := c11OracleHost(b.render()); ok && b.wf && b.rfc && ldh(b) {
 					return b
 				}
 			}
@@ -177,8 +249,9 @@ func TestVerif_C11_e2e(t *testing.T) {
 			}
 			auths = append(auths, b.render())
 		}
+		reuse := prevCl != nil && r.Intn(2) == 0
 		// if the chain would not get anywhere because of an allowed-list, sometimes add the hosts
-		if r.Intn(2) == 0 {
+		if !reuse && r.Intn(2) == 0 {
 			for j := range ps {
 				if ps[j].kind == "ahost" || ps[j].kind == "adomain" {
 					ps[j].list = append(ps[j].list, auths[r.Intn(len(auths))])
@@ -213,7 +286,12 @@ func TestVerif_C11_e2e(t *testing.T) {
 		// grown from it by Clone / SetRedirectPolicy (the clone must enforce what it inherited,
 		// a later SetRedirectPolicy on either side must stay on that side)
 		cl, line0, scen := c, "", ""
-		if r.Intn(2) == 0 {
+		if reuse {
+			// the SAME client (same policy closures) sends another request from a different
+			// origin: policies must judge it by ITS via, not by anything seen before
+			cl, ps, line0, scen = prevCl, prevPs, prevLine0, prevScen
+			s.Count("reused-client")
+		} else if r.Intn(2) == 0 {
 			fam := c11NewFamily(c, nil)
 			fam.set(0, c11GenPols(r, []c11Auth{a0}, limit, hdrPool)) // known starting point
 			fam.grow(r, func() []c11Pol {
@@ -237,6 +315,7 @@ func TestVerif_C11_e2e(t *testing.T) {
 			line0 = "c11chain " + c11EncPols(ps)
 			s.Count("direct")
 		}
+		prevCl, prevPs, prevLine0, prevScen = cl, ps, line0, scen
 		for _, p := range ps {
 			s.Count("pol:" + p.kind)
 		}
@@ -245,18 +324,66 @@ func TestVerif_C11_e2e(t *testing.T) {
 		for _, kv := range ih {
 			rq.Headers[kv[0]] = append(rq.Headers[kv[0]], kv[1])
 		}
-		resp, err := rq.Get("http://" + c11URLHost(auths[0]) + "/0")
-		// what the policies see as via[0] is the URL the client really built (parseRequestURL
-		// drops an empty port from the first URL): use that authority for hop 0 from here on
-		if rq.RawRequest != nil && rq.RawRequest.URL != nil && rq.RawRequest.URL.Host != auths[0] {
+		altHosts := map[string]bool{}
+		if alt {
+			jar := cl.Transport.altSvcJar
+			for k, a := range auths {
+				if (k == 0 && r.Intn(3) != 0) || (k > 0 && r.Intn(4) == 0) {
+					u, e := url.Parse("https://" + c11URLHost(a) + "/")
+					if e != nil || jar == nil {
+						continue
+					}
+					as := &altsvc.AltSvc{Protocol: "h2", Expire: time.Now().Add(time.Hour)}
+					kind := r.Intn(4)
+					if kind == 0 && strings.HasSuffix(a, "]") {
+						// not generated: for a port-less bracketed IPv6 origin altsvcutil.ConvertURL
+						// builds "[[::2]]:port" (JoinHostPort of an already bracketed host) and the
+						// request fails before anything is sent - an availability defect of the
+						// alt-svc code, outside C11 (see notes)
+						kind = 1
+					}
+					switch kind {
+					case 0: // same host, other port
+						as.Port = strconv.Itoa(1024 + r.Intn(60000))
+					case 1: // another spelling / relative of some chain host, other port
+						as.Host = strings.ToLower(c11OracleHostOf(auths[r.Intn(len(auths))]))
+						as.Port = strconv.Itoa(1024 + r.Intn(60000))
+					default: // unrelated host
+						as.Host = verifh.Pick(r, []string{"alt.example", "cdn.evil.test", "10.9.8.7", "alt-" + strconv.Itoa(r.Intn(50)) + ".example.net"})
+						as.Port = verifh.Pick(r, []string{"443", "8443", "4433"})
+						altHosts[as.Host] = true
+					}
+					jar.SetAltSvc(netutil.AuthorityKey(u), as)
+					s.Count("altsvc-entry")
+					if k == 0 {
+						s.Count("altsvc-entry-for-first-origin")
+					}
+				}
+			}
+		}
+		resp, err := rq.Get(farm.scheme + "://" + c11URLHost(auths[0]) + "/0")
+		// what the policies see as via[0] is the URL the client built: parseRequestURL drops an
+		// empty port from the first URL (and nothing else); after the call the request must still
+		// name that origin — nothing below the client may rewrite the URL of a request in flight
+		urlRewritten := ""
+		if want0 := strings.TrimSuffix(auths[0], ":"); want0 != auths[0] {
 			s.Count("host0-normalised-by-client")
-			auths[0] = rq.RawRequest.URL.Host
+			auths[0] = want0
+		}
+		if rq.RawRequest != nil && rq.RawRequest.URL != nil && rq.RawRequest.URL.Host != auths[0] {
+			urlRewritten = rq.RawRequest.URL.Host
 		}
 		farm.mu.Lock()
 		recs := append([]c11Record(nil), farm.recs...)
 		dials := append([]string(nil), farm.dials...)
 		farm.mu.Unlock()
 
+		for _, d := range dials {
+			if h, _, e := net.SplitHostPort(d); e == nil && altHosts[h] {
+				s.Count("request-carried-by-alternative")
+				break
+			}
+		}
 		// ---- canonical answer of the implementation
 		outcome := ""
 		switch {
@@ -303,13 +430,16 @@ func TestVerif_C11_e2e(t *testing.T) {
 		}
 		want, wantStop := predict(c11OracleHostOf, c11OracleDomainOf)
 		gotStop := map[string]int{"final": 0, "refused": 1, "last": 2}[strings.SplitN(outcome, ":", 2)[0]]
-		ok := orderOK && len(recs) == want && gotStop == wantStop && len(dials) == len(recs)
+		ok := orderOK && len(recs) == want && gotStop == wantStop && (alt || len(dials) == len(recs))
+		if urlRewritten != "" {
+			ok = false
+		}
 		detail := ""
 		if !ok {
 			detail = fmt.Sprintf("requests received %d, oracle allows %d, dials %d", len(recs), want, len(dials))
 		}
 		// every connection went to the hostname of the hop it was for
-		for k := 0; ok && k < len(dials); k++ {
+		for k := 0; ok && !alt && k < len(dials); k++ {
 			dh, _, e := net.SplitHostPort(dials[k])
 			if e != nil || !strings.EqualFold(dh, c11OracleHostOf(auths[k])) {
 				ok, detail = false, fmt.Sprintf("hop %d dialled %q for authority %q", k, dials[k], auths[k])
@@ -379,6 +509,9 @@ func TestVerif_C11_e2e(t *testing.T) {
 			s.Count("cross-origin-strip")
 		}
 		human := scen + c11ShowPols(ps) + " chain=" + strings.Join(auths, " -> ") + " => " + outcome + " received=" + strconv.Itoa(len(recs))
+		if urlRewritten != "" {
+			detail = "URL.Host of the original request was rewritten to " + urlRewritten + " " + detail
+		}
 		if detail != "" {
 			human += " [" + detail + "]"
 		}
@@ -386,5 +519,9 @@ func TestVerif_C11_e2e(t *testing.T) {
 			c11EncHeaders(ih) + " " + verifh.HexList(probes)
 		s.Case(line, ans, ok, class, m > 0, human)
 	}
-	s.FinishRequire("direct", "family:original", "family:set-on-clone", "family:clone-of-clone-inherits", "family:clone-inherits,parent-reconfigured-later", "family:clone-inherits", "outcome:final", "outcome:refused", "outcome:last", "cross-origin-strip", "pol:copy", "pol:samehost", "pol:samedomain", "pol:ahost", "pol:adomain", "pol:no", "pol:nil", "pol:max", "hops-scripted:0", "hops-scripted:3", "host0-normalised-by-client")
+	must := []string{"direct", "reused-client", "family:original", "family:set-on-clone", "family:clone-of-clone-inherits", "family:clone-inherits,parent-reconfigured-later", "family:clone-inherits", "outcome:final", "outcome:refused", "outcome:last", "cross-origin-strip", "pol:copy", "pol:samehost", "pol:samedomain", "pol:ahost", "pol:adomain", "pol:no", "pol:nil", "pol:max", "hops-scripted:0", "hops-scripted:3", "host0-normalised-by-client"}
+	if alt {
+		must = append(must, "altsvc-entry", "altsvc-entry-for-first-origin", "request-carried-by-alternative")
+	}
+	s.FinishRequire(must...)
 }
